@@ -70,9 +70,29 @@ type c15In struct {
 	Evs    []c15Event
 	// concurrent run: goroutine i repeats Conc[i] (connected / add / disconnected over addresses that
 	// no other list mentions) for RunMs milliseconds, Readers goroutines keep reading the views
+	// overlapping calls: a schedule of starts / releases / atomic events (see c15RunOverlap)
+	Acts []c15Act `json:",omitempty"`
+
 	Conc    [][]c15Event `json:",omitempty"`
 	Readers int          `json:",omitempty"`
 	RunMs   int          `json:",omitempty"`
+}
+type c15Act struct {
+	K   string // start | release | other
+	C   int
+	P   *c15Peer  `json:",omitempty"`
+	Lk  []c15Lk   `json:",omitempty"`
+	Ann []c15Ann  `json:",omitempty"`
+	Ev  *c15Event `json:",omitempty"`
+}
+type c15CallObs struct {
+	C    int
+	Done bool
+	Eff  []c15Eff
+}
+type c15Obs struct {
+	Evs   []c15ObsEv
+	Calls []c15CallObs `json:",omitempty"`
 }
 type c15Rec struct {
 	A common.Address
@@ -106,7 +126,15 @@ type c15Call struct {
 	u  []byte
 	ch chan c15Res
 }
+type c15Park struct {
+	call int
+	ch   chan struct{}
+}
 type c15World struct {
+	gated   bool             // overlapping calls: every NewStream parks until released; effects are kept per call
+	current int              // the call that is running (one goroutine runs at a time)
+	parked  map[int]*c15Park // call -> its parked NewStream
+	callEff map[int][]c15Eff
 	quiet       bool          // concurrent runs: effects are not recorded
 	latency     time.Duration // duration of a mode-3 write
 	mu          sync.Mutex
@@ -122,7 +150,9 @@ type c15World struct {
 
 func (w *c15World) record(e c15Eff) {
 	w.mu.Lock()
-	if !w.quiet {
+	if w.gated {
+		w.callEff[w.current] = append(w.callEff[w.current], e)
+	} else if !w.quiet {
 		w.eff = append(w.eff, e)
 	}
 	w.mu.Unlock()
@@ -146,6 +176,13 @@ func (w *c15World) NewStream(ctx context.Context, p p2p.Peer, _ p2p.Header, _ p2
 		return nil, err
 	}
 	w.mu.Lock()
+	if w.gated {
+		pk := &c15Park{call: w.current, ch: make(chan struct{})}
+		w.parked[pk.call] = pk
+		w.mu.Unlock()
+		<-pk.ch // released by the driver, which has made this call the current one again
+		w.mu.Lock()
+	}
 	m := w.ann[c15FromPeer(p)]
 	lat := w.latency
 	w.mu.Unlock()
@@ -489,6 +526,13 @@ func (s *c15Sys) finish() []c15ObsEv {
 	return s.obs
 }
 
+func c15RunAny(in c15In, slow int) c15Obs {
+	if len(in.Acts) > 0 {
+		return c15RunOverlap(in, slow)
+	}
+	return c15Obs{Evs: c15Run(in, slow)}
+}
+
 func c15Run(in c15In, slow int) []c15ObsEv {
 	if len(in.Conc) > 0 {
 		return c15RunConc(in, slow)
@@ -565,6 +609,137 @@ func c15RunConc(in c15In, slow int) []c15ObsEv {
 	case <-time.After(5 * time.Second * time.Duration(slow)):
 		return nil // stuck; the goroutines are left behind
 	}
+}
+
+// c15RunOverlap: several Connected calls on shared addresses, overlapping under the driver's
+// control. Each call runs in its own goroutine; whenever it reaches the transport (NewStream inside
+// the real discovery.BroadcastPeers) it parks. The driver lets exactly one goroutine run at a time and
+// waits until it has parked again or returned (positive synchronisation), so the schedule is the
+// interleaving of the calls' critical sections.
+func c15RunOverlap(in c15In, slow int) c15Obs {
+	s := c15New(in.Probes, slow)
+	w := s.w
+	w.gated = true
+	w.parked = map[int]*c15Park{}
+	w.callEff = map[int][]c15Eff{}
+	done := map[int]bool{}
+	tables := map[int]c15Act{}
+	var order []int
+	setCurrent := func(c int) {
+		a := tables[c]
+		w.mu.Lock()
+		w.current = c
+		w.lk = map[c15Peer][]byte{}
+		for _, l := range a.Lk {
+			if _, dup := w.lk[l.P]; !dup {
+				w.lk[l.P] = l.U
+			}
+		}
+		w.ann = map[c15Peer]int{}
+		for _, x := range a.Ann {
+			if _, dup := w.ann[x.P]; !dup {
+				w.ann[x.P] = x.M
+			}
+		}
+		w.mu.Unlock()
+	}
+	settled := func(c int) bool { return w.parked[c] != nil || done[c] }
+	hung := false
+	for _, a := range in.Acts {
+		if hung {
+			break
+		}
+		switch a.K {
+		case "start":
+			if _, dup := tables[a.C]; dup {
+				continue
+			}
+			tables[a.C] = a
+			order = append(order, a.C)
+			setCurrent(a.C)
+			c, p := a.C, a.P.peer()
+			go func() {
+				s.topo.Connected(p)
+				w.mu.Lock()
+				done[c] = true
+				w.mu.Unlock()
+			}()
+			hung = !w.waitFor(func() bool { return settled(c) }, 5*time.Second*s.slow)
+		case "release":
+			w.mu.Lock()
+			pk := w.parked[a.C]
+			delete(w.parked, a.C)
+			w.mu.Unlock()
+			if pk != nil {
+				setCurrent(a.C)
+				c := a.C
+				close(pk.ch)
+				hung = !w.waitFor(func() bool { return settled(c) }, 5*time.Second*s.slow)
+			}
+		case "other":
+			w.mu.Lock()
+			w.current = -1
+			w.mu.Unlock()
+			ch := make(chan struct{})
+			ev := *a.Ev
+			go func() {
+				defer close(ch)
+				switch ev.K {
+				case "add":
+					var ps []p2p.Peer
+					for _, p := range ev.Ps {
+						ps = append(ps, p.peer())
+					}
+					s.topo.AddPeers(ps...)
+				case "disconnected":
+					s.topo.Disconnected(ev.P.peer())
+				}
+			}()
+			select {
+			case <-ch:
+			case <-time.After(5 * time.Second * s.slow):
+				hung = true
+			}
+		}
+	}
+	var out c15Obs
+	w.mu.Lock()
+	for _, c := range order {
+		out.Calls = append(out.Calls, c15CallObs{C: c, Done: done[c], Eff: append([]c15Eff{}, w.callEff[c]...)})
+	}
+	left := w.parked
+	w.parked = map[int]*c15Park{}
+	w.current = -2
+	w.mu.Unlock()
+	if !hung {
+		fin := make(chan []c15ObsEv, 1)
+		go func() {
+			s.apply(c15Event{K: "observe"})
+			fin <- s.obs
+		}()
+		select {
+		case o := <-fin:
+			out.Evs = o
+		case <-time.After(5 * time.Second * s.slow):
+		}
+	}
+	for _, pk := range left { // let whatever is still parked run out
+		close(pk.ch)
+	}
+	_ = s.disc.Close()
+	return out
+}
+
+// c15Parked lists the calls that are parked (generator support)
+func (s *c15Sys) parkedCalls() []int {
+	s.w.mu.Lock()
+	defer s.w.mu.Unlock()
+	var cs []int
+	for c := range s.w.parked {
+		cs = append(cs, c)
+	}
+	sort.Ints(cs)
+	return cs
 }
 
 // --- Coq terms ------------------------------------------------------------------------------------
@@ -648,13 +823,47 @@ func c15CoqEff(e c15Eff) string {
 		return coqApp("Add", c15CoqPeer(*e.P))
 	}
 }
-func c15CoqCase(id int, in c15In, obs []c15ObsEv) string {
+func c15CoqTables(lkIn []c15Lk, annIn []c15Ann) (string, string) {
+	var lk, ann []string
+	for _, l := range lkIn {
+		lk = append(lk, coqPair(c15CoqPeer(l.P), coqBytesI(l.U)))
+	}
+	for _, a := range annIn {
+		ann = append(ann, coqPair(c15CoqPeer(a.P), coqN(uint64(a.M))))
+	}
+	return c15N.bind("t", "(("+coqList(lk)+") : list (peer * bytes))"), c15N.bind("f", "(("+coqList(ann)+") : list (peer * N))")
+}
+
+func c15CoqCase(id int, in c15In, full c15Obs) string {
+	obs := full.Evs
 	c15N = &c15Names{names: map[string]string{}}
+	var acts, calls []string
+	for _, a := range in.Acts {
+		switch a.K {
+		case "start":
+			lk, ann := c15CoqTables(a.Lk, a.Ann)
+			acts = append(acts, coqApp("AStart", coqN(uint64(a.C)), c15CoqPeer(*a.P), lk, ann))
+		case "release":
+			acts = append(acts, coqApp("ARelease", coqN(uint64(a.C))))
+		default:
+			acts = append(acts, coqApp("AOther", c15CoqEvent(*a.Ev)))
+		}
+	}
+	for _, c := range full.Calls {
+		var eff []string
+		for _, e := range c.Eff {
+			eff = append(eff, c15CoqEff(e))
+		}
+		calls = append(calls, "("+coqN(uint64(c.C))+", "+coqBool(c.Done)+", ("+coqList(eff)+" : list effect))")
+	}
 	var pr, evs, os []string
 	for _, a := range in.Probes {
 		pr = append(pr, c15Addr(a))
 	}
 	mode := 0
+	if len(in.Acts) > 0 {
+		mode = 2
+	}
 	for _, ev := range in.Evs {
 		evs = append(evs, c15CoqEvent(ev))
 	}
@@ -691,7 +900,8 @@ func c15CoqCase(id int, in c15In, obs []c15ObsEv) string {
 			c15N.bind("c", "(("+coqList(conn)+") : list bool)"), c15N.bind("g", "(("+coqList(api)+") : list (list addr))")))
 	}
 	roles := coqList([]string{coqZ(int64(p2p.PeerTypeBootnode)), coqZ(int64(p2p.PeerTypeProvider)), coqZ(int64(p2p.PeerTypeBidder))})
-	body := coqRecord("id", coqN(uint64(id)), "c_mode", coqN(uint64(mode)), "c_roles", roles, "probes", coqList(pr), "evs", coqList(evs), "obs", coqList(os))
+	body := coqRecord("id", coqN(uint64(id)), "c_mode", coqN(uint64(mode)), "c_roles", roles, "probes", coqList(pr), "evs", coqList(evs), "obs", coqList(os),
+		"c_acts", "(("+coqList(acts)+") : list action)", "c_calls", "(("+coqList(calls)+") : list (N * bool * list effect))")
 	return "(" + strings.Join(c15N.defs, "") + body + ")"
 }
 
@@ -961,6 +1171,47 @@ func c15Concurrent(r *rand.Rand, runMs int) c15In {
 	return in
 }
 
+// Overlapping Connected calls on shared addresses: a random schedule of starts, releases and
+// atomic disconnects / adds over 3 providers and 3 bidders (plus twins), then enough releases for
+// every call to return.
+func c15Overlap(r *rand.Rand) c15In {
+	pool := c15NewPool(r)
+	in := c15In{Probes: pool.probes}
+	next := 0
+	active := map[c15Peer]bool{}
+	for k := 4 + r.Intn(10); k > 0; k-- {
+		switch x := r.Intn(10); {
+		case x < 4 || next == 0:
+			q := pool.pick(r)
+			if active[q] { // one running call per peer
+				continue
+			}
+			active[q] = true
+			lk, ann := pool.tables(r, 20, 15)
+			for i := range ann {
+				if ann[i].M == 3 {
+					ann[i].M = 0
+				}
+			}
+			in.Acts = append(in.Acts, c15Act{K: "start", C: next, P: &q, Lk: lk, Ann: ann})
+			next++
+		case x < 8:
+			in.Acts = append(in.Acts, c15Act{K: "release", C: r.Intn(next)})
+		case x < 9:
+			q := pool.pick(r)
+			in.Acts = append(in.Acts, c15Act{K: "other", Ev: &c15Event{K: "disconnected", P: &q}})
+		default:
+			in.Acts = append(in.Acts, c15Act{K: "other", Ev: &c15Event{K: "add", Ps: []c15Peer{pool.pick(r), pool.pick(r)}}})
+		}
+	}
+	for round := 0; round < 8; round++ {
+		for c := 0; c < next; c++ {
+			in.Acts = append(in.Acts, c15Act{K: "release", C: c})
+		}
+	}
+	return in
+}
+
 func c15Exhaustive(depth int, f func(c15In)) {
 	mk := func(b byte, t int) c15Peer {
 		var a common.Address
@@ -1002,15 +1253,16 @@ func TestVerifC15(t *testing.T) {
 			_ = c15P2PSvc.Close()
 		}
 	}()
-	emit := func(class string, in c15In, obs []c15ObsEv) {
+	emitAny := func(class string, in c15In, obs c15Obs) {
 		e.Emit(class, in, obs, func(id int) string { return c15CoqCase(id, in, obs) })
 	}
+	emit := func(class string, in c15In, obs []c15ObsEv) { emitAny(class, in, c15Obs{Evs: obs}) }
 	for _, raw := range e.Replay {
 		var in c15In
 		if err := json.Unmarshal(raw, &in); err != nil {
 			t.Fatalf("bad replay input: %v", err)
 		}
-		emit("replay", in, c15Run(in, e.Slow))
+		emitAny("replay", in, c15RunAny(in, e.Slow))
 	}
 	if e.OnlyReplay() {
 		return
@@ -1028,6 +1280,10 @@ func TestVerifC15(t *testing.T) {
 	for i := 0; i < e.N/10; i++ {
 		in, obs := c15AnnounceCtx(e.rng, e.Slow)
 		emit("announce-ctx", in, obs)
+	}
+	for i := 0; i < e.N/8; i++ {
+		in := c15Overlap(e.rng)
+		emitAny("overlap", in, c15RunAny(in, e.Slow))
 	}
 	nc, runMs := 3, 150
 	if e.Tier == "thorough" {
